@@ -1,7 +1,7 @@
 #!/bin/sh
 # usage: sweep_seeds.sh [ID-prefix ...]   -- runs the quick check of each seeded change's property against the change
 # (applied to a scratch worktree of /repo HEAD) and records the outcome in seeded/<id>/check_result.txt
-WT=/tmp/vq-sweep
+WT=${SWEEP_WT:-/tmp/vq-sweep}
 git -C /repo worktree remove --force $WT 2>/dev/null
 git -C /repo worktree add -q --detach $WT HEAD || exit 3
 cd /verif/seeded
